@@ -251,7 +251,7 @@ func (p *prepared) scaleOf() float64 {
 	return 1
 }
 
-func (p *prepared) concSeries(ss []MSeries) map[string][]mpt {
+func (p *prepared) concSeries(ss []MSeries, mechanism bool) map[string][]mpt {
 	out := map[string][]mpt{}
 	sc := p.scaleOf()
 	if p.mq.Agg == "count" {
@@ -261,7 +261,8 @@ func (p *prepared) concSeries(ss []MSeries) map[string][]mpt {
 		lt := labelsText(p.k.concLabels(s.Lbls, ""))
 		for _, pt := range s.Pts {
 			den := float64(pt.Den)
-			if isRate(p.mq.Fn) && p.mq.Agg != "count" {
+			// (the mechanism as coded divides bytes_over_time by the range in seconds as well)
+			if (isRate(p.mq.Fn) || (mechanism && p.mq.Fn == "bytes_over_time")) && p.mq.Agg != "count" {
 				den *= float64(p.mq.Unit)
 			}
 			out[lt] = append(out[lt], mpt{ts: float64(baseSec) + float64(pt.T*p.mq.Unit), val: float64(pt.Num) * sc / den, opt: pt.Opt})
@@ -359,12 +360,32 @@ func runMetricCase(w *World, p *prepared) *caseOutcome {
 	out.query = req.Query
 	obs := w.Run(req)
 	out.tags = append(tagsOf(k, c), "fn:"+mq.Fn, fmt.Sprintf("unit:%d", mq.Unit))
+	if mq.Agg != "" {
+		out.tags = append(out.tags, "agg:"+mq.Agg, "grouping:"+mq.Grp+":"+mq.GPos)
+	}
+	if mq.UGrp != "" {
+		out.tags = append(out.tags, "range-grouping:"+mq.UGrp)
+	}
+	if mq.CmpL.Op != "" || mq.CmpA.Op != "" {
+		out.tags = append(out.tags, "comparison:"+mq.CmpL.Op+mq.CmpA.Op)
+	}
+	if mq.TopFn != "" {
+		out.tags = append(out.tags, mq.TopFn)
+	}
+	switch {
+	case mq.Step < mq.Range:
+		out.tags = append(out.tags, "step<range")
+	case mq.Step == mq.Range:
+		out.tags = append(out.tags, "step=range")
+	default:
+		out.tags = append(out.tags, "step>range")
+	}
 	var mexp, mpl []MSeries
 	if err := json.Unmarshal(c.MExpRaw, &mexp); err != nil {
 		out.infra = "mexp: " + err.Error()
 		return out
 	}
-	exp := p.concSeries(mexp)
+	exp := p.concSeries(mexp, false)
 	out.nontrivial = len(mexp) > 0
 	out.replay = map[string]any{"case": c, "logql": req.Query, "request": req, "entries": entries, "observed": obs,
 		"expected_series": exp2json(exp), "concretisation": map[string]any{"values": k.Val, "features": k.Feat, "names": k.Name,
@@ -417,7 +438,7 @@ func runMetricCase(w *World, p *prepared) *caseOutcome {
 	}
 	if c.Dev && !c.PlErr {
 		json.Unmarshal(c.MPlRaw, &mpl)
-		plok, _, _ := seriesAgree(p.concSeries(mpl), got)
+		plok, _, _ := seriesAgree(p.concSeries(mpl, true), got)
 		out.matchesPl = plok
 	}
 	out.sig = why + "|" + cls
@@ -464,17 +485,21 @@ func metricWhy(k *Conc, c *ACase, mq *AMq) string {
 	if shortcut && hasLbl {
 		return "shortcut15s:label-filter-not-planned"
 	}
+	// the triggers of the log-query part (selector, line filters, label filters, extraction)
+	if w := devWhy(k, c); !strings.HasPrefix(w, "unattributed") && !(shortcut && strings.HasPrefix(w, "labelfilter:")) {
+		return w
+	}
 	if shortcut && (mq.Range*mq.Unit)%15 != 0 {
 		return "shortcut15s:range-not-multiple-of-15s"
 	}
 	if mq.Fn == "bytes_over_time" {
 		return "bytes_over_time:divided-by-range"
 	}
+	if hasDrop {
+		return "drop:series-not-merged-in-range-aggregation"
+	}
 	if mq.Agg != "" && mq.Grp == "" {
 		return "vector-aggregation:without-grouping-not-merged"
-	}
-	if w := devWhy(k, c); !strings.HasPrefix(w, "unattributed") {
-		return w
 	}
 	if isUnwrapFn(mq.Fn) {
 		for _, e := range c.DB {
@@ -482,12 +507,14 @@ func metricWhy(k *Conc, c *ACase, mq *AMq) string {
 				return "unwrap:non-numeric-counted-as-zero"
 			}
 		}
+		for _, e := range c.DB {
+			if e.Fld["n"] == "n0" {
+				return "zero-valued-point-dropped"
+			}
+		}
 	}
 	if mq.Step > mq.Range {
 		return "step-greater-than-range"
-	}
-	if mq.Step < mq.Range {
-		return "step-smaller-than-range"
 	}
 	parts := []string{"fn=" + mq.Fn}
 	if mq.Agg != "" {
